@@ -85,26 +85,40 @@ Theorem C08_replace_key_is_identifier :
     syn_ident_ok cls k = false -> replace_lookup cls [(k, t)] d = None.
 Proof. exact replace_key_is_identifier. Qed.
 
-(* Distinctness of FIELD names within a struct.  Full statement
-     forall props ta, NoDup props -> NoDup (struct_field_names cls props ta)
-   is REFUTED (C08_fields_distinct_refuted); it holds outside the two
-   failure classes F1, F3, which are exactly the inputs that collide. *)
-Theorem C08_fields_distinct_excl :
+(* struct fields (structs.rs struct_members, with the check of fix 5896b59):
+   distinct identifiers bound to exactly the property names, or Err -- never
+   duplicates; `fl` is the synthesised flattened field *)
+Theorem C08_fields_distinct_or_err :
+  forall cls, ClassesOK cls -> forall (props : list ustring) (typed_additional : bool) fs fl,
+    struct_members cls props typed_additional = Ok (fs, fl) ->
+    NoDup (List.map fst fs ++ fl) /\
+    List.map wire_name fs = props /\
+    Forall (fun f => syn_ident_ok cls (fst f) = true) fs /\
+    fl = (if typed_additional then [s_extra] else []).
+Proof. exact struct_members_distinct_or_err. Qed.
+
+(* the Err is not over-eager: it is reported for every collision ... *)
+Theorem C08_fields_err_on_collision :
+  forall cls (props : list ustring) (typed_additional : bool),
+    Fields_collide cls props \/ Field_collides_extra cls props typed_additional ->
+    struct_members cls props typed_additional = Err.
+Proof. exact struct_members_err_on_collision. Qed.
+
+(* ... and only for collisions *)
+Theorem C08_fields_ok_without_collision :
   forall cls (props : list ustring) (typed_additional : bool),
     NoDup props ->
-    ~ Known_F1 cls props -> ~ Known_F3 cls props typed_additional ->
-    NoDup (struct_field_names cls props typed_additional).
-Proof. exact fields_distinct_excl. Qed.
+    ~ Fields_collide cls props -> ~ Field_collides_extra cls props typed_additional ->
+    exists r, struct_members cls props typed_additional = Ok r.
+Proof. exact struct_members_ok_without_collision. Qed.
 
-Theorem C08_fields_distinct_refuted :
-  (exists props, NoDup props /\ Known_F1 ascii_classes props /\ ~ Known_F3 ascii_classes props false /\
-                 ~ NoDup (struct_field_names ascii_classes props false)) /\
-  (exists props, NoDup props /\ ~ Known_F1 ascii_classes props /\ Known_F3 ascii_classes props true /\
-                 ~ NoDup (struct_field_names ascii_classes props true)).
+(* regression: the witnesses of the repaired findings C08-F1, C08-F3 are rejected *)
+Example C08_fields_witnesses_rejected :
+  struct_members ascii_classes w_f1 false = Err /\
+  struct_members ascii_classes w_f3 true = Err /\
+  struct_members ascii_classes w_f3 false = Ok ([(ustr "extra"%string, None)], []).
 Proof.
-  split.
-  - exists w_f1. exact Known_F1_fails.
-  - exists w_f3. exact Known_F3_fails.
+  destruct fields_witnesses_rejected as [_ [_ [H1 [_ [_ [H2 H3]]]]]]. auto.
 Qed.
 
 (* Distinctness of ITEM names for definitions: REFUTED in general (F2) *)
